@@ -44,16 +44,18 @@ def classify_unit_str(m, u, parsed_to=None):
         return "C13:str-raised"
     if u.symbol:
         terms, magnitude = [], 1
+    # each known mechanism has one outcome: text with a magnitude or a numeric prefix in it is *rejected* by the
+    # parser, a colliding symbol *parses* to the other unit; the opposite outcome is not that mechanism
     if magnitude != 1:
-        return "C13:leading-magnitude-in-unit-str"
+        return "C13:leading-magnitude-in-unit-str" if parsed_to is None else "C13:parses-to-a-different-unit"
     for prefix, symbol, exponent in terms:
         if prefix.base != 0 and not prefix.symbol:
-            return "C13:numeric-prefix-rendering"
+            return "C13:numeric-prefix-rendering" if parsed_to is None else "C13:parses-to-a-different-unit"
     for prefix, symbol, exponent in terms:
         if prefix.base != 0 and prefix.symbol and symbol:
             glued = f"{prefix.symbol}{symbol}"
             if glued in Unit._by_symbol:
-                return f"C13:prefixed-symbol-collides:{glued}"
+                return f"C13:prefixed-symbol-collides:{glued}" if parsed_to is not None else "C13:str-does-not-parse"
             # an earlier, shorter split of the glued string resolves to something else
             for i in range(1, len(glued)):
                 if i != len(prefix.symbol) and glued[:i] in m.Prefix._by_symbol and glued[i:] in Unit._by_symbol:
@@ -202,7 +204,12 @@ def one_configuration(ctx, env, config, part, parts, label=None, products=None):
                 a, b = orc.si_value(q.magnitude, q.unit), orc.si_value(q2.magnitude, q2.unit)
                 ma, mb = (a[0] + a[1]) / 2, (b[0] + b[1]) / 2
                 if a[2] != b[2] or abs(ma - mb) > max(abs(ma), abs(mb)) * R9:
-                    ctx.violation(classify_failure(u, str(u), parsed_to=q2.unit),
+                    key = classify_failure(u, str(u), parsed_to=q2.unit)
+                    if "collides" not in key:
+                        # the known findings about magnitudes inside a *unit's* str() are about text the unit grammar
+                        # cannot read; a quantity's str() folds that magnitude into its own and must read back equal
+                        key = "C13:quantity-parses-to-a-different-value"
+                    ctx.violation(key,
                                   f"{q!r} renders as {qs!r} which parses to {q2!r} (different physical value)", {"quantity": [model.enc_mag(mag), term], "config": cfg_name})
                 else:
                     ctx.count("outcomes/quantity_equal")
@@ -277,10 +284,16 @@ def spellings(ctx, env, rng, factors, u, same_unit, ParseError):
             return None
         sep = {"star": "*", "dot": "⋅", "space": " "}[mul]
         if ws:
-            sep = f" {sep} " if sep != " " else "  "
+            # "any whitespace": every character of the grammar's ignored WS terminal, also around the operators
+            w = rng.choice([" ", "  ", "\t", "\n", " \n ", "\r\n", "\f"])
+            sep = f"{w}{sep}{w}" if sep != " " else w
+        else:
+            w = ""
         out = sep.join(num)
         if den:
-            out += (" / " if ws else "/") + sep.join(den)
+            out += f"{w}/{w}" + sep.join(den)
+        if ws and rng.random() < 0.3:
+            out = w + out + w
         return out
 
     base = render(("caret", "star", False, False, False))
